@@ -21,6 +21,7 @@ package core
 //@     invariant 0 <= rangeindex + 1 && rangeindex + 1 <= len(p)
 //@     invariant n == dec(p, rangeindex + 1) && alldigits(p, rangeindex + 1)
 //@     invariant 0 <= n && n < pow10(rangeindex + 1)
+//@     invariant rangeindex >= 0 ==> isdigit(p[0])
 
 //@ bind CConn = *rcproxy/core.conn
 //@ bind SConn = *rcproxy/core.conn
@@ -47,6 +48,9 @@ package core
 //@   ensures[wait@C12] (result1 != nil && result1 != codec.ErrInvalidResp) ==> old(codec.left(buf)) < 1 || old(codec.lf(buf)) < 0
 //@       || (old(bulkhdr_ok(buf)) && old(datapos(buf) + bulklen(buf) + 2) > len(buf.buf))
 //@   ensures[samebuf] buf.buf == old(buf.buf)
+//@   ensures[prefix.empty@C08] old(codec.left(buf)) < 1 ==> result1 == codec.EmptyLine
+//@   ensures[prefix.nolf@C08] (old(codec.left(buf)) >= 1 && old(codec.lf(buf)) < 0) ==> result1 == codec.ErrLFNotFound
+//@   ensures[prefix.data@C08] (old(bulkhdr_ok(buf)) && old(datapos(buf) + bulklen(buf) + 2) > len(buf.buf)) ==> (result1 == codec.ShortLine || result1 == codec.EmptyLine)
 //@   ensures[frame] result1 == nil ==> bulk_ok(buf.buf, old(buf.r)) && buf.r == bulk_next(buf.buf, old(buf.r)) && result0 == bulk_data(buf.buf, old(buf.r))
 
 //@ define fragkey(buf, n) = ite(n >= 1, str(bulk_data(buf.buf, old(buf.r))), "")
